@@ -35,7 +35,7 @@ def exc_sig(e: BaseException) -> str:
     return f"{type(e).__name__}: {msg.strip().splitlines()[0][:160] if msg.strip() else ''}"
 
 
-def judge(design: dict, uid: Optional[str] = None, spice: bool = False) -> Outcome:
+def judge(design: dict, uid: Optional[str] = None, spice: bool = False, reuse=None) -> Outcome:
     import hdl21 as h
 
     o = Outcome()
@@ -46,7 +46,7 @@ def judge(design: dict, uid: Optional[str] = None, spice: bool = False) -> Outco
         return o
     try:
         o.stage = "build"
-        o.built = build.build(design, uid=uid)
+        o.built = build.build(design, uid=uid, reuse=reuse)
         o.stage = "to_proto"
         o.pkg = h.to_proto(o.built.top)
     except Exception as e:  # a valid design was rejected: counted, not a C01 violation
